@@ -81,6 +81,15 @@ Theorem json_nesting :
 Proof. exact json_nesting_proof. Qed.
 Print Assumptions json_nesting.
 
+(* Exactly: the whole state stack (hence State()) after any sequence of calls on any byte string is the
+   documented state machine st_run applied to the GrammarTypes returned so far; in particular the machine
+   never gets stuck (no End without its own Start, no scalar in key position). *)
+Theorem json_state_machine :
+  forall d n tr, trace n (json_init d) = Some tr ->
+    st_run [S_Value] (grammars tr) = Some (pst (last_parser (json_init d) tr)).
+Proof. exact json_state_machine_proof. Qed.
+Print Assumptions json_state_machine.
+
 (* ObjectValueState is entered exactly by returning a key (a String unit in ObjectKeyState). *)
 Theorem json_key_state :
   forall d p u p', json_inv d p -> next p = Some (u, p') -> fst u <> G_Error ->
